@@ -1,9 +1,13 @@
-(* Reach.v — model of Cas._find_all_fs (cassis/cas.py, after fix ce2ede6): the worklist that finds every feature
+(* Reach.v — model of Cas._find_all_fs (cassis/cas.py:719-818, after fix ce2ede6): the worklist that finds every feature
    structure the serialisers write separately.  `queued` admits an object once, by identity; ids are assigned to
    id-less objects when popped; a second object under an id already used is an error; arrays scan `elements`;
    other types scan Type.all_features except `sofa`, skip primitive ranges and None, and for collection features
    without multipleReferencesAllowed (unless include_inlinable_arrays_and_lists) scan the members instead of queuing
-   the collection.  Definitions only; proofs in ReachProofs.v. *)
+   the collection.  Definitions only; proofs in ReachProofs.v.
+
+   Stable names used by the codec models: wstate (w_heap w_next w_all w_queued w_open), find_all_fs, find_all_from,
+   cas_after, sort_ids.  The candidates an object contributes are a function of the heap alone (`feat_cands`,
+   `obj_cands`); `succs` is their reference part: the successor relation of C04, stated without the worklist. *)
 From Cassis Require Import Base Heap Schema.
 Open Scope Z_scope.
 
@@ -15,16 +19,29 @@ Record wstate := mkW {
   w_heap : heap;                 (* objects; ids get assigned during the traversal *)
   w_next : Z;                    (* Cas._xmi_id_generator *)
   w_all : list (xid * oid);      (* all_fs: dict xmiID -> fs, insertion order *)
-  w_queued : list oid;           (* queued: ids of objects ever admitted to the open list *)
+  w_queued : list oid;           (* queued: identities of objects ever admitted to the open list *)
   w_open : list oid }.           (* openlist *)
 
-(* Python truthiness of a candidate: None and empty/zero values are skipped by `if not candidate` *)
+(* Python truthiness of a value that is not a feature structure (`if not candidate`, `and fs.elements`) *)
+Definition falsy (v : val) : bool :=
+  match v with
+  | VNone => true
+  | VInt z => Z.eqb z 0
+  | VBool b => negb b
+  | VStr s => String.eqb s ""
+  | VFlt x => String.eqb x "0x0.0p+0" || String.eqb x "-0x0.0p+0"
+  | VList [] => true
+  | _ => false
+  end.
+
+(* enqueue(candidates): `if not candidate or id(candidate) in queued: continue; queued.add(id(candidate)); openlist.append(candidate)`.
+   A truthy candidate that is not a feature structure is admitted by the code and fails with AttributeError when it is
+   popped (`fs.xmiID`); the model raises that error at once (outside the well-formedness premises). *)
 Definition enqueue1 (w : wstate) (v : val) : res wstate :=
   match v with
-  | VNone => Ok w
   | VRef o => if memN o (w_queued w) then Ok w
               else Ok (mkW (w_heap w) (w_next w) (w_all w) (w_queued w ++ [o]) (w_open w ++ [o]))
-  | _ => Err EAttribute          (* not a feature structure: the code fails later on `.xmiID`; outside wf *)
+  | _ => if falsy v then Ok w else Err EAttribute
   end.
 Definition enqueue (w : wstate) (vs : list val) : res wstate :=
   fold_left (fun acc v => do w' <- acc ;; enqueue1 w' v) vs (Ok w).
@@ -50,29 +67,67 @@ Fixpoint list_heads (fuel : nat) (s : schema) (h : heap) (seen : list oid) (v : 
     end
   end.
 
-Definition elements_of (h : heap) (v : val) : res (list val) :=
+(* `x.elements` used as `if x.elements: enqueue(x.elements)` *)
+Definition own_elements (s : schema) (f : fsobj) : res (list val) :=
+  if has_feat s (o_type f) "elements" then
+    match slot f "elements" with VList l => Ok l | e => if falsy e then Ok [] else Err EAttribute end
+  else Err EAttribute.
+Definition elements_of (s : schema) (h : heap) (v : val) : res (list val) :=
   match v with
-  | VRef a => match hget h a with
-              | Some af => match slot af "elements" with VList l => Ok l | _ => Ok [] end   (* falsy elements: nothing *)
-              | None => Err EAttribute end
+  | VRef a => match hget h a with Some af => own_elements s af | None => Err EAttribute end
   | _ => Err EAttribute
   end.
 
-Definition scan_feature (inl : bool) (s : schema) (f : fsobj) (w : wstate) (fd : fdecl) : res wstate :=
-  if String.eqb (fd_name fd) "sofa" then Ok w else
-  if is_primitive s (fd_range fd) then Ok w else
+(* the feature is written inline by the XMI serialiser: its collection is not a feature structure of its own *)
+Definition inlined (inl : bool) (fd : fdecl) : bool :=
+  negb inl && negb (fd_multi fd) && (is_array_name (fd_range fd) || is_list_name (fd_range fd)).
+
+(* what one feature of f contributes to the open list: body of `for feature in t.all_features` *)
+Definition feat_cands (inl : bool) (s : schema) (h : heap) (f : fsobj) (fd : fdecl) : res (list val) :=
+  if String.eqb (fd_name fd) "sofa" then Ok [] else
+  if is_primitive s (fd_range fd) then Ok [] else
   match slot f (fd_name fd) with
-  | VNone => Ok w
+  | VNone => Ok []
   | v =>
-    if negb inl && negb (fd_multi fd) && (is_array_name (fd_range fd) || is_list_name (fd_range fd)) then
-      if String.eqb (fd_range fd) T_FS_ARRAY then do l <- elements_of (w_heap w) v ;; enqueue w l
-      else if String.eqb (fd_range fd) T_FS_LIST then
-        do hs <- list_heads (S (List.length (w_heap w))) s (w_heap w) [] v ;; enqueue w hs
-      else Ok w
+    if inlined inl fd then
+      if String.eqb (fd_range fd) T_FS_ARRAY then elements_of s h v
+      else if String.eqb (fd_range fd) T_FS_LIST then list_heads (S (List.length h)) s h [] v
+      else Ok []
     else match v with
-         | VRef _ => enqueue w [v]
-         | _ => Err EAttribute
+         | VRef _ => Ok [v]
+         | _ => Err EAttribute          (* `if not hasattr(feature_value, "xmiID"): raise AttributeError` *)
          end
+  end.
+Definition scan_feature (inl : bool) (s : schema) (f : fsobj) (w : wstate) (fd : fdecl) : res wstate :=
+  do l <- feat_cands inl s (w_heap w) f fd ;; enqueue w l.
+
+(* `t.supertype.name == "uima.cas.ArrayBase"`: uima.cas.TOP has no supertype, the attribute access fails *)
+Definition is_array_type (t : tinfo) : res bool :=
+  match ti_anc t with _ :: sup :: _ => Ok (String.eqb sup T_ARRAY_BASE) | _ => Err EAttribute end.
+
+Definition scan (inl : bool) (s : schema) (f : fsobj) (w : wstate) : res wstate :=
+  match sch_find s (o_type f) with
+  | None => Err ETypeNotFound
+  | Some t =>
+    do arr <- is_array_type t ;;
+    if arr then
+      if String.eqb (ti_name t) T_FS_ARRAY then do l <- own_elements s f ;; enqueue w l else Ok w
+    else fold_left (fun acc fd => do w' <- acc ;; scan_feature inl s f w' fd) (ti_feats t) (Ok w)
+  end.
+
+Definition is_null_id (f : fsobj) : bool := match o_id f with Some 0 => true | _ => false end.
+(* `if fs.xmiID is None: fs.xmiID = self._get_next_xmi_id()` *)
+Definition assign_id (o : oid) (f : fsobj) (w : wstate) : xid * fsobj * wstate :=
+  match o_id f with
+  | Some i => (i, f, w)
+  | None => (w_next w, set_id f (w_next w),
+             mkW (hset (w_heap w) o (set_id f (w_next w))) (w_next w + 1) (w_all w) (w_queued w) (w_open w))
+  end.
+(* `existing = all_fs.get(id); if existing is not None and existing is not fs: raise ValueError; all_fs[id] = fs` *)
+Definition record_fs (i : xid) (o : oid) (w : wstate) : res wstate :=
+  match zfind i (w_all w) with
+  | Some o' => if N.eqb o o' then Ok w else Err EDupId
+  | None => Ok (mkW (w_heap w) (w_next w) (w_all w ++ [(i, o)]) (w_queued w) (w_open w))
   end.
 
 Definition pop (inl : bool) (s : schema) (w : wstate) : res wstate :=
@@ -83,29 +138,9 @@ Definition pop (inl : bool) (s : schema) (w : wstate) : res wstate :=
     match hget (w_heap w) o with
     | None => Err EAttribute
     | Some f =>
-      if match o_id f with Some 0 => true | _ => false end then Ok w else      (* cas:NULL is not returned *)
-      let '(i, f, w) :=
-        match o_id f with
-        | Some i => (i, f, w)
-        | None => (w_next w, set_id f (w_next w),
-                   mkW (hset (w_heap w) o (set_id f (w_next w))) (w_next w + 1) (w_all w) (w_queued w) (w_open w))
-        end in
-      match (match zfind i (w_all w) with
-             | Some o' => if N.eqb o o' then Ok w else Err EDupId
-             | None => Ok (mkW (w_heap w) (w_next w) (w_all w ++ [(i, o)]) (w_queued w) (w_open w))
-             end) with
-      | Err e => Err e | OutOfFuel => OutOfFuel
-      | Ok w =>
-        match sch_find s (o_type f) with
-        | None => Err ETypeNotFound
-        | Some t =>
-          if match ti_anc t with _ :: sup :: _ => String.eqb sup T_ARRAY_BASE | _ => false end then
-            if String.eqb (ti_name t) T_FS_ARRAY
-            then match slot f "elements" with VList l => enqueue w l | _ => Ok w end
-            else Ok w
-          else fold_left (fun acc fd => do w' <- acc ;; scan_feature inl s f w' fd) (ti_feats t) (Ok w)
-        end
-      end
+      if is_null_id f then Ok w else                                  (* cas:NULL is not returned *)
+      let '(i, f, w) := assign_id o f w in
+      do w <- record_fs i o w ;; scan inl s f w
     end
   end.
 
@@ -116,7 +151,8 @@ Fixpoint run (fuel : nat) (inl : bool) (s : schema) (w : wstate) : res wstate :=
   end.
 
 (* seeds: `for sofa in self.sofas: enqueue(view.select_all())`, or the explicit seeds *)
-Definition seeds_of (c : cas) : list val := map VRef (flat_map v_members (c_views c)).
+Definition member_seeds (c : cas) : list oid := flat_map v_members (c_views c).
+Definition seeds_of (c : cas) : list val := map VRef (member_seeds c).
 Definition start (c : cas) (seeds : list val) : res wstate :=
   enqueue (mkW (c_heap c) (c_next_id c) [] [] []) seeds.
 (* every object is admitted once, so |heap| pops suffice (ReachProofs.worklist_terminates) *)
@@ -132,7 +168,47 @@ Fixpoint insert_id (x : xid * oid) (l : list (xid * oid)) : list (xid * oid) :=
   match l with [] => [x] | y :: r => if fst x <=? fst y then x :: y :: r else y :: insert_id x r end.
 Definition sort_ids (l : list (xid * oid)) : list (xid * oid) := fold_right insert_id [] l.
 
-(* ---- the unrepaired loop (pinned tree before ce2ede6), kept for the refutations of C15 ---- *)
+(* ---- the successor relation, stated without the worklist ------------------------------------------------------------
+   obj_cands: the values the scan of one object offers to the open list — for an FSArray its elements; for any other
+   type, per effective feature other than `sofa` with a non-primitive range and a value: the value itself (references,
+   TOP-ranged features, list head/tail, collections held with multipleReferencesAllowed or when inlinable collections are
+   included), or for an inlined FSArray its elements, for an inlined FSList the heads of its nodes.  succs = the
+   references among them. *)
+Definition obj_cands (inl : bool) (s : schema) (h : heap) (f : fsobj) : res (list val) :=
+  match sch_find s (o_type f) with
+  | None => Err ETypeNotFound
+  | Some t =>
+    do arr <- is_array_type t ;;
+    if arr then (if String.eqb (ti_name t) T_FS_ARRAY then own_elements s f else Ok [])
+    else fold_left (fun acc fd => do l <- acc ;; do l' <- feat_cands inl s h f fd ;; Ok (l ++ l')) (ti_feats t) (Ok [])
+  end.
+Definition refs_of (l : list val) : list oid := flat_map (fun v => match v with VRef o => [o] | _ => [] end) l.
+Definition succs (inl : bool) (s : schema) (h : heap) (o : oid) : list oid :=
+  match hget h o with
+  | Some f => match obj_cands inl s h f with Ok l => refs_of l | _ => [] end
+  | None => []
+  end.
+
+(* well-formedness premises of the theorems, as booleans: every value the scan of a live object considers is None or a
+   reference to a live object (in particular: the type is known and is not uima.cas.TOP itself, `elements` of arrays is
+   a list, reference features hold references, list nodes and inlined collections are live) *)
+Definition live (h : heap) (o : oid) : bool := match hget h o with Some _ => true | None => false end.
+Definition okval (h : heap) (v : val) : bool := match v with VNone => true | VRef o => live h o | _ => false end.
+Definition wf_objb (inl : bool) (s : schema) (h : heap) (f : fsobj) : bool :=
+  match obj_cands inl s h f with Ok l => forallb (okval h) l | _ => false end.
+Definition wf_heapb (inl : bool) (s : schema) (h : heap) : bool := forallb (fun p => wf_objb inl s h (snd p)) h.
+Definition seeds_liveb (h : heap) (seeds : list oid) : bool := forallb (live h) seeds.
+(* explicit ids: pairwise distinct (id 0 = cas:NULL apart) and below the generator's next id *)
+Fixpoint nodupZ (l : list Z) : bool :=
+  match l with [] => true | x :: r => negb (existsb (Z.eqb x) r) && nodupZ r end.
+Fixpoint nodupN (l : list N) : bool :=
+  match l with [] => true | x :: r => negb (memN x r) && nodupN r end.
+Definition explicit_ids (h : heap) : list Z :=
+  flat_map (fun p => match o_id (snd p) with Some i => if i =? 0 then [] else [i] | None => [] end) h.
+Definition ids_okb (h : heap) (next : Z) : bool :=
+  nodupN (map fst h) && nodupZ (explicit_ids h) && forallb (fun i => i <? next) (explicit_ids h).
+
+(* ---- the unrepaired loop (pinned tree before ce2ede6), kept for the refutations of C15 (RefutedC15.v) ---- *)
 Definition visited_id (w : wstate) (o : oid) : bool :=          (* `ref.xmiID in all_fs` *)
   match hget (w_heap w) o with
   | Some f => match o_id f with Some i => match zfind i (w_all w) with Some _ => true | None => false end | None => false end
